@@ -326,6 +326,15 @@ def run_case(ctx, k, rng):
         if mode == "iso" or fb == "big-iso":
             ctx.check("isomorphic graphs get lower bound 0", lb == 0.0, lower=lb, schedule=sname)
         judge_witnesses(ctx, lb, ub, cap, DX, DY, len(A), len(B))
+        if true2 is not None and isinstance(s, int):
+            # the distance is symmetric in its arguments; the two bounds are computed by code that treats them differently
+            try:
+                out_sw, _ = call(ctx, fB, fA, mso, s)
+                lbs_, ubs_ = float(out_sw[0]), float(out_sw[1])
+                ctx.check("lower <= true mGH (exact oracle)", lbs_ <= true2 / 2, lower=lbs_, true=true2 / 2, schedule=sname, swapped_arguments=True)
+                ctx.check("true mGH <= upper (exact oracle)", true2 / 2 <= ubs_, upper=ubs_, true=true2 / 2, schedule=sname, swapped_arguments=True)
+            except Exception as e:
+                ctx.exception("returns (lower, upper)", e, schedule=sname, swapped_arguments=True)
         if isinstance(s, int) and mode in ("exact", "trees", "witness", "rings") and rng.random() < 0.3:
             # the only randomness is the global NumPy generator: the same seed must reproduce the same pair of bounds
             try:
